@@ -31,6 +31,7 @@ import (
 // underlying buffer is an interface. (io.Pipe is always unbuffered)
 type Pipe struct {
 	mu       sync.Mutex
+	vt       verifTraceState
 	c        sync.Cond // c.L lazily initialized to &p.mu
 	b        PipeBuffer
 	err      error         // read error once empty. non-nil means closed.
@@ -51,6 +52,7 @@ type PipeBuffer interface {
 func (p *Pipe) Read(d []byte) (n int, err error) {
 	p.mu.Lock()
 	defer p.mu.Unlock()
+	defer p.verifTraceIO("read", d, &n, &err)
 	if p.c.L == nil {
 		p.c.L = &p.mu
 	}
@@ -68,6 +70,7 @@ func (p *Pipe) Read(d []byte) (n int, err error) {
 			}
 			return 0, p.err
 		}
+		p.verifTraceBlock(d)
 		p.c.Wait()
 	}
 }
@@ -79,6 +82,7 @@ var errClosedPipeWrite = errors.New("write on closed buffer")
 func (p *Pipe) Write(d []byte) (n int, err error) {
 	p.mu.Lock()
 	defer p.mu.Unlock()
+	defer p.verifTraceIO("write", d, &n, &err)
 	if p.c.L == nil {
 		p.c.L = &p.mu
 	}
@@ -118,6 +122,7 @@ func (p *Pipe) closeWithError(dst *error, err error, fn func()) {
 		p.c.L = &p.mu
 	}
 	defer p.c.Signal()
+	defer p.verifTraceClose(dst, err)
 	if *dst != nil {
 		// Note: Here we do not consider the existing io.EOF(i.e. *dst) as a real error
 		// and replace it if necessary. The error handling policy allows us to release
@@ -192,4 +197,5 @@ func (p *Pipe) Release(pool *sync.Pool) {
 	p.b.Reset()
 	pool.Put(p.b)
 	p.b = nil
+	p.verifTraceRelease()
 }
